@@ -1167,7 +1167,9 @@ func genScenario(r *hxlib.Run, class string) *scenario {
 	return sc
 }
 
-func floodScenario(r *hxlib.Run) *scenario {
+// floodScenario floods the clearance queue of one priority (0 = medium, 1 = low): each queue has its own
+// enqueue-timeout branch in the code (get*PriorityClearance), so both are filled in every run.
+func floodScenario(r *hxlib.Run, prio int) *scenario {
 	// more short-delay requests than the clearance queue holds while the scheduler is blocked by long tasks:
 	// wait-timeouts leave stale requests behind until the queue is full, then enqueue-timeouts count themselves
 	rng := r.Rng
@@ -1181,7 +1183,7 @@ func floodScenario(r *hxlib.Run) *scenario {
 	n := qcap + 150 + rng.Intn(100)
 	var sub []int
 	for i := 0; i < n; i++ {
-		sc.Tasks = append(sc.Tasks, taskSpec{Prio: 0, Var: 1, Mod: rng.Intn(3), RunUs: rng.Intn(50), DelayMs: 2, Out: []int{0, 1}[rng.Intn(2)]})
+		sc.Tasks = append(sc.Tasks, taskSpec{Prio: prio, Var: 1, Mod: rng.Intn(3), RunUs: rng.Intn(50), DelayMs: 2, Out: []int{0, 1}[rng.Intn(2)]})
 		sub = append(sub, 2+i)
 	}
 	sc.Tasks[2].PreUs = 3000 // let the two blockers get their clearances first
@@ -1381,8 +1383,8 @@ func gen(r *hxlib.Run, emit func(hxlib.Case)) {
 		extraMu.Unlock()
 	}
 	if os.Getenv("HX_C15_ONLY") == "flood" { // debugging aid
-		sc := floodScenario(r)
-		emitScn(sc)
+		emitScn(floodScenario(r, 0))
+		emitScn(floodScenario(r, 1))
 		return
 	}
 	// regression scenarios first
@@ -1415,7 +1417,8 @@ func gen(r *hxlib.Run, emit func(hxlib.Case)) {
 		}
 		if i%150 == 20 && floods > 0 {
 			floods--
-			emitScn(floodScenario(r))
+			emitScn(floodScenario(r, floods%2))
+			r.Count(fmt.Sprintf("flood:prio%d", floods%2))
 		}
 	}
 }
